@@ -5,7 +5,7 @@
  * usage: h_bbfile <schedule> <trace-out> [--keep DIR] [--batch N]
  *
  * schedule ops (one per line):
- *   Init <size>                       qb_log_init + QB_LOG_BLACKBOX with QB_LOG_CONF_SIZE
+ *   Init <size>                       (qb_log_init once per process) close the blackbox, QB_LOG_CONF_SIZE, open it again
  *   Log <prio> <fn> <tags> <fk> <sz>  one numbered record (qb_log_from_external_source)
  *   Dump                              qb_log_blackbox_write_to_file
  *   Print <trunc> <marker> <ws> <wp> <rp> <ver> <hash> <cj> <creg> <ckind>
@@ -15,13 +15,13 @@
  *   PrintRand <seed> <nbytes> <mode>  seeded multi-byte corruption (mode 0 = the
  *                                     tests/file_change_bytes idea: random bytes at random places)
  *   PrintJunk <seed> <kind> <len>     something that never was a dump
- *   Reset                             qb_log_fini, forget everything
+ *   Reset                             close the blackbox, forget the dump
  *
  * Every Print* op writes the concrete file, PROJECTS it onto its abstract class
  * (relative to the pristine dump: which header words / chunk fields / message
  * bytes differ and the class of the new value), then runs the real
- * qb_log_blackbox_print_from_file in a forked child (cases are batched, see flush_queue) (ASan+UBSan build, stdout and
- * stderr captured, alarm as watchdog) and records
+ * qb_log_blackbox_print_from_file in a forked child (ASan+UBSan build, stdout and
+ * stderr captured, alarm as watchdog; cases are batched, see flush_queue) and records
  *   r = [kind, rc, leftover, k, [printed records...]]
  *   kind: 0 returned, 1 killed by a signal, 2 sanitizer report (incl. SEGV on the
  *         guard tail), 3 abort(), 4 watchdog
